@@ -1,0 +1,72 @@
+//go:build verif
+
+package health
+
+// Contracts checked by /verif (contract-based deductive verification).
+// This file is comment-only; it is compiled only with -tags=verif.
+//
+// C54 (health service). The status map and the subscriber channels are guarded
+// by s.mu. A subscriber's channel has capacity 1 and carries the latest value:
+// a writer drains it (non-blocking) and then sends, so the send finds the
+// channel empty and never blocks under the lock.
+
+//@ import healthpb "google.golang.org/grpc/health/grpc_health_v1"
+
+//@ monitor Server.mu protects shutdown, statusMap, updates
+
+// setServingStatusLocked (caller holds s.mu): the status is recorded, and every
+// value sent to a subscriber of that service is that status, sent to a
+// channel that (when it has capacity 1) is empty at that moment.
+//@ func (*Server).setServingStatusLocked
+//@   prop C54
+//@   opt heldmu mu
+//@   opt yields on
+//@   requires s != nil
+//@   modifies s.statusMap[*]
+//@   ensures haskey(s.statusMap, service) && s.statusMap[service] == servingStatus
+//@   ensures s.shutdown == old(s.shutdown)
+//@   loop 1 invariant haskey(s.statusMap, service) && s.statusMap[service] == servingStatus && s.shutdown == old(s.shutdown)
+//@   assert at call chansend#1 arg1 == servingStatus && implies(cap(arg0) == 1, len(arg0) == 0)
+
+// SetServingStatus: ignored between Shutdown and Resume.
+//@ func (*Server).SetServingStatus
+//@   prop C54
+//@   requires s != nil && s.statusMap != nil
+//@   assert at call setServingStatusLocked#1 !s.shutdown && arg0 == s && arg1 == service && arg2 == servingStatus
+//@   assert at return 1 s.shutdown && ncalls("setServingStatusLocked") == 0
+//@   assert at return end ncalls("setServingStatusLocked") == 1
+
+//@ func (*Server).Shutdown
+//@   prop C54
+//@   requires s != nil && s.statusMap != nil
+//@   loop 1 invariant s.shutdown
+//@   assert at call setServingStatusLocked#1 s.shutdown && arg0 == s && arg2 == healthpb.HealthCheckResponse_NOT_SERVING
+//@   assert at return end s.shutdown
+
+//@ func (*Server).Resume
+//@   prop C54
+//@   requires s != nil && s.statusMap != nil
+//@   loop 1 invariant !s.shutdown
+//@   assert at call setServingStatusLocked#1 !s.shutdown && arg0 == s && arg2 == healthpb.HealthCheckResponse_SERVING
+//@   assert at return end !s.shutdown
+
+// Check: the recorded status of the service, or NotFound.
+//@ func (*Server).Check
+//@   prop C54
+//@   requires s != nil && in != nil
+//@   assert at return 1 haskey(s.statusMap, in.Service) && result0 != nil && result0.Status == s.statusMap[in.Service] && result1 == nil
+//@   assert at return 2 !haskey(s.statusMap, in.Service) && result0 == nil && result1 != nil
+
+// Watch: the channel is created with capacity 1; the first value is the current
+// status (SERVICE_UNKNOWN if the service is not registered), put while the
+// channel is empty; the channel registered for this stream is that channel;
+// a status is sent to the client only if it differs from the one sent last,
+// and it is the value taken from the channel.
+//@ func (*Server).Watch
+//@   prop C54
+//@   requires s != nil && in != nil && s.updates != nil
+//@   loop 1 invariant true
+//@   assert at call chansend#1 cap(arg0) == 1 && len(arg0) == 0 && haskey(s.statusMap, service) && arg1 == s.statusMap[service]
+//@   assert at call chansend#2 cap(arg0) == 1 && len(arg0) == 0 && !haskey(s.statusMap, service) && arg1 == healthpb.HealthCheckResponse_SERVICE_UNKNOWN
+//@   assert at call Unlock#1 haskey(s.updates, service) && haskey(s.updates[service], stream) && s.updates[service][stream] == update
+//@   assert at call Send#1 servingStatus != athead(lastSentStatus) && arg0 != nil && arg0.Status == servingStatus && lastSentStatus == servingStatus
